@@ -375,7 +375,8 @@ stream_step(struct stream *stream)
 		}
 	}
 
-	stream->deltaclock = clock - stream->lastclock;
+	/* Unsorted streams may jump by more than an int64_t: wrap, don't overflow */
+	stream->deltaclock = (int64_t) ((uint64_t) clock - (uint64_t) stream->lastclock);
 	stream->lastclock = clock;
 
 	return 0;
